@@ -19,7 +19,10 @@
 (*             TickLock          lock acquired                 [first event under the lock]*)
 (*             TickTryFail       try_lock timed out            [tick.try_lock_failed]*)
 (*             TickArm           should_notify := true         [should_notify.store(true)]*)
-(*             TickLockedWith(c) everything done under the lock [tick.locked .. tick.spawn]*)
+(*             TickRetryOk/Fail  the lock tried once more      [tick.retry_lock]*)
+(*             TickLockedWith(c) decisions, snapshot, hand-over of pattern / items [tick.locked]*)
+(*             TickStoreNotify   should_notify := true         [should_notify.store(true)]*)
+(*             TickSpawn         the guard moves to the pool   [tick.spawn]*)
 (*   worker    RunBegin          flags, cleared reset          [run.begin] *)
 (*             ResetItem/ResetDone   reset_matches + remove_in_flight_matches, one active.load per item*)
 (*             TScanStart/TScanItem  process_new_items_trivial [inflight.load / active.load]*)
@@ -27,13 +30,15 @@
 (*             RetryItem/RetryDone   in-flight retry           [active.load / inflight.load]*)
 (*             ScanItem(i)/ScanDone  parallel scan, any order  [active.load, canceled.load / par.scan end]*)
 (*             SortStepWith(c)   par_quicksort + truncate / was_canceled [run.sort_end]*)
-(*             NRead / Notify    the single read of the flag   [should_notify.load, notify]*)
-(*             RunEnd            lock released                 [after run.end]*)
+(*             RunEnd            lock released                 [run.unlocked]*)
+(*             NRead / Notify    the single read of the flag, after the unlock [should_notify.load, notify]*)
 (*                                                                         *)
 (* The model describes the code AS IT IS after the fix: commits (in_flight *)
-(* kept sorted).  The recorded lost wake-up (known findings KF-C13-..) is a *)
-(* reachable violation of NoLostWakeup; its signature is carried by the    *)
-(* ghost `lateArm` so that TLC keeps exploring past it (NoOtherLostWakeup).*)
+(* kept sorted; the run releases the lock before its single read of the    *)
+(* notification flag, and a tick that timed out tries the lock once more   *)
+(* after arming the flag).  Before the last of these repairs NoLostWakeup  *)
+(* was a reachable violation (TickTryFail, the run's read of the flag,     *)
+(* RunEnd, TickArm); it now holds in every explored instance.              *)
 (*                                                                         *)
 (* Item payloads are state: data[s][i] = [len, sc] is what the injector    *)
 (* wrote into entry i of stream s (total column length and the score of    *)
@@ -55,9 +60,10 @@ Streams == 0..(MaxStreams-1)
 VARIABLES resv, wst, pub, data,   \* per stream: reserved count, writer state per entry (0 none,1 reserved,2 published,3 notified), published set, payloads
           cur, pat, patStatus, state, snap, lock, canceled, shouldNotify,
           w, ui, wk,
-          notifyPending, wake, promise, lateArm, lastRunning, ticks, edits, bad
+          notifyPending, wake, promise, lastRunning, ticks, edits, bad,
+          tails      \* closures on the pool that have released the lock: [read |-> still to read the flag, notify |-> saw it set]
 vars == <<resv, wst, pub, data, cur, pat, patStatus, state, snap, lock, canceled, shouldNotify, w, ui, wk,
-          notifyPending, wake, promise, lateArm, lastRunning, ticks, edits, bad>>
+          notifyPending, wake, promise, lastRunning, ticks, edits, bad, tails>>
 
 Score(s, p, it) == data[s][it].sc[p]
 LenOf(s, it) == data[s][it].len
@@ -79,8 +85,9 @@ wst0 == [s \in Streams |-> [it \in Items |-> 0]]
 pub0 == [s \in Streams |-> {}]
 snap0 == [count |-> 0, matches |-> <<>>, pat |-> 0, items |-> 0]
 w0 == [items |-> 0, last |-> 0, inflight |-> <<>>, matches |-> <<>>, pat |-> 0, running |-> FALSE, wasCanceled |-> FALSE]
-ui0 == [pc |-> "idle", c |-> FALSE, stt |-> "U", phase |-> 1, changed |-> FALSE]
-wk0 == [pc |-> "idle", status |-> "U", cleared |-> FALSE, end |-> 0, todo |-> {}, res |-> <<>>, unmatched |-> 0, rtodo |-> {},
+ui0 == [pc |-> "idle", c |-> FALSE, stt |-> "U", phase |-> 1, changed |-> FALSE, arm |-> FALSE, cleared |-> FALSE]
+tails0 == [read |-> 0, notify |-> 0]
+wk0 == [pc |-> "idle", fin |-> FALSE, status |-> "U", cleared |-> FALSE, end |-> 0, todo |-> {}, res |-> <<>>, unmatched |-> 0, rtodo |-> {},
         ci |-> 1, off |-> 0, keep |-> <<>>, rok |-> 0]
 
 InitCore ==   \* everything but the payloads
@@ -89,11 +96,11 @@ InitCore ==   \* everything but the payloads
   /\ snap = snap0
   /\ lock = "free" /\ canceled = FALSE /\ shouldNotify = FALSE
   /\ w = w0 /\ ui = ui0 /\ wk = wk0
-  /\ notifyPending = FALSE /\ wake = TRUE /\ promise = FALSE /\ lateArm = FALSE /\ lastRunning = FALSE
-  /\ ticks = 0 /\ edits = 0 /\ bad = "ok"
+  /\ notifyPending = FALSE /\ wake = TRUE /\ promise = FALSE /\ lastRunning = FALSE
+  /\ ticks = 0 /\ edits = 0 /\ bad = "ok" /\ tails = tails0
 
 \* ---------------- injector threads (any stream: old injectors keep working after a restart)
-WrUnch == UNCHANGED <<cur, pat, patStatus, state, snap, lock, canceled, shouldNotify, w, ui, wk, wake, promise, lateArm, lastRunning, ticks, edits, bad>>
+WrUnch == UNCHANGED <<cur, pat, patStatus, state, snap, lock, canceled, shouldNotify, w, ui, wk, wake, promise, lastRunning, ticks, edits, bad, tails>>
 \* one fetch_add reserving Len(rows) consecutive entries; the payloads are written before publication
 Reserve(s, rows) ==
   LET n == Len(rows)  b == resv[s] IN
@@ -111,47 +118,56 @@ WNotifySet(s, S) == /\ S # {} /\ \A it \in S : wst[s][it] = 2
                     /\ UNCHANGED <<resv, pub, data>> /\ WrUnch
 
 \* ---------------- UI thread
-UiUnch == UNCHANGED <<resv, wst, pub, data>>
+UiUnch == UNCHANGED <<resv, wst, pub, data, tails>>
 ReparseWith(p, app) ==
   /\ ui.pc = "idle"
   /\ pat' = p /\ edits' = edits + 1 /\ wake' = TRUE
   /\ patStatus' = IF app /\ patStatus # "R" /\ pat \in Appendable THEN "P" ELSE "R"
-  /\ UiUnch /\ UNCHANGED <<cur, state, snap, lock, canceled, shouldNotify, w, ui, wk, notifyPending, promise, lateArm, lastRunning, ticks, bad>>
+  /\ UiUnch /\ UNCHANGED <<cur, state, snap, lock, canceled, shouldNotify, w, ui, wk, notifyPending, promise, lastRunning, ticks, bad>>
 
 Restart(clear) ==
   /\ ui.pc = "idle" /\ cur < MaxStreams - 1
   /\ canceled' = TRUE /\ cur' = cur + 1 /\ state' = "Cleared" /\ wake' = TRUE
   /\ snap' = IF clear THEN [snap EXCEPT !.count = 0, !.matches = <<>>, !.items = cur + 1] ELSE snap
-  /\ UiUnch /\ UNCHANGED <<pat, patStatus, lock, shouldNotify, w, ui, wk, notifyPending, promise, lateArm, lastRunning, ticks, edits, bad>>
+  /\ UiUnch /\ UNCHANGED <<pat, patStatus, lock, shouldNotify, w, ui, wk, notifyPending, promise, lastRunning, ticks, edits, bad>>
 
 \* Nucleo::drop: cancel, then wait for the lock (the worker finishes its run on its own)
 Drop ==
   /\ ui.pc = "idle" /\ canceled' = TRUE /\ ui' = [ui EXCEPT !.pc = "dropped"]
-  /\ UiUnch /\ UNCHANGED <<cur, pat, patStatus, state, snap, lock, shouldNotify, w, wk, notifyPending, wake, promise, lateArm, lastRunning, ticks, edits, bad>>
+  /\ UiUnch /\ UNCHANGED <<cur, pat, patStatus, state, snap, lock, shouldNotify, w, wk, notifyPending, wake, promise, lastRunning, ticks, edits, bad>>
 
 TickBegin ==
   /\ ui.pc = "idle"
-  /\ ticks' = ticks + 1 /\ notifyPending' = FALSE /\ wake' = FALSE /\ promise' = FALSE /\ lateArm' = FALSE
+  /\ ticks' = ticks + 1 /\ notifyPending' = FALSE /\ wake' = FALSE /\ promise' = FALSE
   /\ shouldNotify' = FALSE
   /\ LET c == patStatus # "U" \/ state # "Fresh" IN
-     ui' = [pc |-> IF c THEN "cancel" ELSE "try", c |-> c, stt |-> patStatus, phase |-> 1, changed |-> FALSE]
+     ui' = [ui0 EXCEPT !.pc = IF c THEN "cancel" ELSE "try", !.c = c, !.stt = patStatus]
   /\ UiUnch /\ UNCHANGED <<cur, pat, patStatus, state, snap, lock, canceled, w, wk, lastRunning, edits, bad>>
 TickCancel ==
   /\ ui.pc = "cancel" /\ patStatus' = "U" /\ canceled' = TRUE /\ ui' = [ui EXCEPT !.pc = "lockwait"]
-  /\ UiUnch /\ UNCHANGED <<cur, pat, state, snap, lock, shouldNotify, w, wk, notifyPending, wake, promise, lateArm, lastRunning, ticks, edits, bad>>
+  /\ UiUnch /\ UNCHANGED <<cur, pat, state, snap, lock, shouldNotify, w, wk, notifyPending, wake, promise, lastRunning, ticks, edits, bad>>
 TickLock ==
   /\ ui.pc \in {"lockwait", "try"} /\ lock = "free" /\ lock' = "ui" /\ ui' = [ui EXCEPT !.pc = "locked"]
-  /\ UiUnch /\ UNCHANGED <<cur, pat, patStatus, state, snap, canceled, shouldNotify, w, wk, notifyPending, wake, promise, lateArm, lastRunning, ticks, edits, bad>>
-TickTryFail ==   \* any timeout: enabled whenever the lock is held
-  /\ ui.pc = "try" /\ lock # "free" /\ ui' = [ui EXCEPT !.pc = "arm"]
-  /\ UiUnch /\ UNCHANGED <<cur, pat, patStatus, state, snap, lock, canceled, shouldNotify, w, wk, notifyPending, wake, promise, lateArm, lastRunning, ticks, edits, bad>>
+  /\ UiUnch /\ UNCHANGED <<cur, pat, patStatus, state, snap, canceled, shouldNotify, w, wk, notifyPending, wake, promise, lastRunning, ticks, edits, bad>>
+\* any timeout: enabled whenever the lock is held.  `held`: the lock was held when the attempt was made (trace
+\* validation: the failure is reported by a hook that may be recorded after the holder's unlock)
+TickTryFailAt(held) ==
+  /\ ui.pc = "try" /\ held /\ ui' = [ui EXCEPT !.pc = "arm"]
+  /\ UiUnch /\ UNCHANGED <<cur, pat, patStatus, state, snap, lock, canceled, shouldNotify, w, wk, notifyPending, wake, promise, lastRunning, ticks, edits, bad>>
+TickTryFail == TickTryFailAt(lock # "free")
 TickArm ==
-  /\ ui.pc = "arm" /\ shouldNotify' = TRUE /\ ui' = [ui EXCEPT !.pc = "idle"]
-  /\ promise' = TRUE /\ lastRunning' = TRUE
-  \* signature of the known lost wake-up: the run holding the lock has already done its single read of the flag
-  \* (or has even notified and is about to unlock) when the flag is re-armed
-  /\ lateArm' = (wk.pc \in {"notify", "end", "idle"})
-  /\ UiUnch /\ UNCHANGED <<cur, pat, patStatus, state, snap, lock, canceled, w, wk, notifyPending, wake, ticks, edits, bad>>
+  /\ ui.pc = "arm" /\ shouldNotify' = TRUE /\ ui' = [ui EXCEPT !.pc = "retry"]
+  /\ UiUnch /\ UNCHANGED <<cur, pat, patStatus, state, snap, lock, canceled, w, wk, notifyPending, wake, promise, lastRunning, ticks, edits, bad>>
+\* after arming the flag the lock is tried once more: the run reads the flag only after it has unlocked, so
+\* either it sees the flag or this attempt finds the lock free
+TickRetryOk ==
+  /\ ui.pc = "retry" /\ lock = "free" /\ lock' = "ui" /\ ui' = [ui EXCEPT !.pc = "locked"]
+  /\ UiUnch /\ UNCHANGED <<cur, pat, patStatus, state, snap, canceled, shouldNotify, w, wk, notifyPending, wake, promise, lastRunning, ticks, edits, bad>>
+TickRetryFailAt(held) ==
+  /\ ui.pc = "retry" /\ held /\ ui' = [ui EXCEPT !.pc = "idle"] /\ promise' = TRUE /\ lastRunning' = TRUE
+  /\ UiUnch /\ UNCHANGED <<cur, pat, patStatus, state, snap, lock, canceled, shouldNotify, w, wk, notifyPending, wake, ticks, edits, bad>>
+
+TickRetryFail == TickRetryFailAt(lock # "free")
 
 \* the decisions taken under the lock; cnt = the value items.count() returned (read only when not cancelling)
 TLCancelling == ui.phase = 1 /\ ui.c
@@ -163,24 +179,34 @@ TickLockedWith(cnt) ==
   /\ LET cflag == TLCancelling
          running == TLRunning(cnt)
          w1 == [w EXCEPT !.running = FALSE]
-         cleared == TLCleared
      IN
      /\ snap' = IF TLDoSnap THEN [count |-> w.last - Len(w.inflight), matches |-> w.matches, pat |-> w.pat, items |-> w.items] ELSE snap
      /\ IF running
-        THEN /\ w' = [w1 EXCEPT !.pat = pat, !.items = IF cleared THEN cur ELSE @]
+        THEN \* the worker is handed the pattern (and the new item list), then the flags are stored, then it is spawned
+             /\ w' = [w1 EXCEPT !.pat = pat, !.items = IF TLCleared THEN cur ELSE @]
              /\ canceled' = FALSE
-             /\ shouldNotify' = IF ~cflag THEN TRUE ELSE shouldNotify
-             /\ lock' = "w"
-             /\ wk' = [wk0 EXCEPT !.pc = "begin", !.status = IF ui.phase = 1 THEN ui.stt ELSE "U", !.cleared = cleared]
-        ELSE /\ w' = w1 /\ lock' = "free" /\ UNCHANGED <<canceled, shouldNotify, wk>>
-     /\ IF cflag
-        THEN /\ ui' = [ui EXCEPT !.pc = "try", !.phase = 2, !.changed = w.running] /\ state' = "Fresh"
-             /\ UNCHANGED <<promise, lastRunning>>
-        ELSE /\ ui' = [ui EXCEPT !.pc = "idle", !.changed = @ \/ w.running] /\ promise' = running /\ lastRunning' = running /\ UNCHANGED state
-  /\ UiUnch /\ UNCHANGED <<cur, pat, patStatus, notifyPending, wake, lateArm, ticks, edits, bad>>
+             /\ ui' = [ui EXCEPT !.pc = "spawn", !.changed = IF cflag THEN w.running ELSE @ \/ w.running, !.arm = ~cflag, !.cleared = TLCleared]
+             /\ UNCHANGED <<lock, promise, lastRunning>>
+        ELSE /\ w' = w1 /\ lock' = "free" /\ UNCHANGED canceled
+             /\ ui' = [ui EXCEPT !.pc = "idle", !.changed = @ \/ w.running] /\ promise' = FALSE /\ lastRunning' = FALSE
+  /\ UiUnch /\ UNCHANGED <<cur, pat, patStatus, state, shouldNotify, wk, notifyPending, wake, ticks, edits, bad>>
+\* should_notify.store(true): the tail of an earlier closure may read the flag before or after this store
+TickStoreNotify ==
+  /\ ui.pc = "spawn" /\ ui.arm /\ shouldNotify' = TRUE /\ ui' = [ui EXCEPT !.arm = FALSE]
+  /\ UiUnch /\ UNCHANGED <<cur, pat, patStatus, state, snap, lock, canceled, w, wk, notifyPending, wake, promise, lastRunning, ticks, edits, bad>>
+\* pool.spawn: the lock guard moves into the closure
+TickSpawn ==
+  /\ ui.pc = "spawn" /\ ~ui.arm
+  /\ lock' = "w"
+  /\ wk' = [wk0 EXCEPT !.pc = "begin", !.status = IF ui.phase = 1 THEN ui.stt ELSE "U", !.cleared = ui.cleared]
+  /\ IF TLCancelling
+     THEN /\ ui' = [ui EXCEPT !.pc = "try", !.phase = 2] /\ state' = "Fresh" /\ UNCHANGED <<promise, lastRunning>>
+     ELSE /\ ui' = [ui EXCEPT !.pc = "idle"] /\ promise' = TRUE /\ lastRunning' = TRUE /\ UNCHANGED state
+  /\ UiUnch /\ UNCHANGED <<cur, pat, patStatus, snap, canceled, shouldNotify, w, notifyPending, wake, ticks, edits, bad>>
 
 \* ---------------- worker (runs over the stream w.items)
-WUnch == UNCHANGED <<resv, wst, pub, data, cur, pat, patStatus, state, snap, canceled, shouldNotify, ui, wake, promise, lateArm, lastRunning, ticks, edits>>
+WCore == UNCHANGED <<resv, wst, pub, data, cur, pat, patStatus, state, snap, canceled, shouldNotify, ui, wake, promise, lastRunning, ticks, edits>>
+WUnch == WCore /\ UNCHANGED tails
 WPub == pub[w.items]
 WRes == resv[w.items]
 WScore(it) == Score(w.items, w.pat, it)
@@ -220,7 +246,7 @@ ResetDone ==
 TScanStart ==
   /\ wk.pc \in {"tscan0", "tscan"} /\ wk.todo = {} /\ wk.end = 0
   /\ IF WRes = w.last
-     THEN wk' = [wk EXCEPT !.pc = IF wk.pc = "tscan0" THEN "nread" ELSE "rescore", !.rtodo = 1..Len(w.matches)]
+     THEN wk' = [wk EXCEPT !.pc = IF wk.pc = "tscan0" THEN "end" ELSE "rescore", !.fin = (wk.pc = "tscan0"), !.rtodo = 1..Len(w.matches)]
      ELSE wk' = [wk EXCEPT !.end = WRes, !.todo = w.last..(WRes-1)]
   /\ UNCHANGED <<w, bad>> /\ WUnch /\ UNCHANGED <<lock, notifyPending>>
 MinOf(S) == CHOOSE x \in S : \A y \in S : x <= y
@@ -233,7 +259,8 @@ TScanItem ==
      /\ w' = w2
      /\ wk' = [wk EXCEPT !.todo = @ \ {it},
                          !.end = IF done THEN 0 ELSE @,
-                         !.pc = IF done THEN (IF wk.pc = "tscan0" THEN "nread" ELSE "rescore") ELSE @,
+                         !.pc = IF done THEN (IF wk.pc = "tscan0" THEN "end" ELSE "rescore") ELSE @,
+                         !.fin = IF done /\ wk.pc = "tscan0" THEN TRUE ELSE @,
                          !.rtodo = IF done THEN 1..Len(w2.matches) ELSE @]
   /\ UNCHANGED bad /\ WUnch /\ UNCHANGED <<lock, notifyPending>>
 
@@ -299,29 +326,35 @@ ScanDone ==
 SortStepWith(c) ==
   /\ wk.pc = "sort" /\ (c => canceled)
   /\ IF c
-     THEN /\ w' = [w EXCEPT !.wasCanceled = TRUE] /\ wk' = [wk EXCEPT !.pc = "end"] /\ UNCHANGED bad
+     THEN /\ w' = [w EXCEPT !.wasCanceled = TRUE] /\ wk' = [wk EXCEPT !.pc = "end", !.fin = FALSE] /\ UNCHANGED bad
      ELSE LET srt == SortSeq(w.matches, LAMBDA a, b : Less(w.items, a, b))
               real == { srt[k][1] : k \in 1..Len(srt) } \ {MAXI} IN
           /\ bad' = IF Len(srt) >= 2 /\ ~(real \subseteq WPub) THEN "deref-unpublished" ELSE bad
           /\ w' = [w EXCEPT !.matches = SubSeq(srt, 1, Len(srt) - wk.unmatched)]
-          /\ wk' = [wk EXCEPT !.pc = "nread", !.unmatched = 0]
+          /\ wk' = [wk EXCEPT !.pc = "end", !.fin = TRUE, !.unmatched = 0]
   /\ WUnch /\ UNCHANGED <<lock, notifyPending>>
-NRead ==
-  /\ wk.pc = "nread"
-  /\ wk' = [wk EXCEPT !.pc = IF shouldNotify THEN "notify" ELSE "end"]
-  /\ UNCHANGED <<w, bad>> /\ WUnch /\ UNCHANGED <<lock, notifyPending>>
-Notify ==
-  /\ wk.pc = "notify" /\ notifyPending' = TRUE /\ wk' = [wk EXCEPT !.pc = "end"]
-  /\ UNCHANGED <<w, bad, lock>> /\ WUnch
+\* run() has returned (fin: it was not cancelled); the closure on the pool thread releases the lock first ...
 RunEnd ==
   /\ wk.pc = "end" /\ lock' = "free" /\ wk' = [wk EXCEPT !.pc = "idle", !.unmatched = 0]
-  /\ UNCHANGED <<w, bad, notifyPending>> /\ WUnch
-\* RunEnd \cdot TickLock written out (the unlock itself is not observable; it certainly precedes the next acquisition)
-RunEndThenTickLock ==
-  /\ wk.pc = "end" /\ lock = "w" /\ ui.pc \in {"lockwait", "try"}
+  /\ tails' = IF wk.fin THEN [tails EXCEPT !.read = @ + 1] ELSE tails
+  /\ UNCHANGED <<w, bad, notifyPending>> /\ WCore
+\* ... and only then looks at the flag (the next run may already have been spawned: the tail of a closure runs
+\* concurrently with everything else)
+NRead ==
+  /\ tails.read > 0
+  /\ tails' = [read |-> tails.read - 1, notify |-> tails.notify + (IF shouldNotify THEN 1 ELSE 0)]
+  /\ UNCHANGED <<w, wk, bad>> /\ WCore /\ UNCHANGED <<lock, notifyPending>>
+Notify ==
+  /\ tails.notify > 0 /\ tails' = [tails EXCEPT !.notify = @ - 1] /\ notifyPending' = TRUE
+  /\ UNCHANGED <<w, wk, bad, lock>> /\ WCore
+\* RunEnd \cdot TickLock and RunEnd \cdot TickRetryOk written out: the unlock precedes the hook that reports it, so
+\* an acquisition may be recorded first (trace validation only)
+RunEndThenAcquire ==
+  /\ wk.pc = "end" /\ lock = "w" /\ ui.pc \in {"lockwait", "try", "retry"}
   /\ lock' = "ui" /\ wk' = [wk EXCEPT !.pc = "idle", !.unmatched = 0] /\ ui' = [ui EXCEPT !.pc = "locked"]
+  /\ tails' = IF wk.fin THEN [tails EXCEPT !.read = @ + 1] ELSE tails
   /\ UNCHANGED <<resv, wst, pub, data, cur, pat, patStatus, state, snap, canceled, shouldNotify, w,
-                 notifyPending, wake, promise, lateArm, lastRunning, ticks, edits, bad>>
+                 notifyPending, wake, promise, lastRunning, ticks, edits, bad>>
 
 \* ---------------- properties
 \* C06
@@ -336,9 +369,8 @@ SnapshotCount == Len(snap.matches) <= snap.count /\ snap.count <= resv[snap.item
 RestartIsolation == snap.items <= cur /\ w.items <= cur
 \* C07 / C13 / C19
 WritersQuiet == \A s \in Streams : \A it \in Items : wst[s][it] \in {0, 3}
-Quiescent == ui.pc = "idle" /\ wk.pc = "idle" /\ WritersQuiet /\ ~notifyPending /\ ~wake
+Quiescent == ui.pc = "idle" /\ wk.pc = "idle" /\ tails = tails0 /\ WritersQuiet /\ ~notifyPending /\ ~wake
 NoLostWakeup == ~(Quiescent /\ promise)
-NoOtherLostWakeup == ~(Quiescent /\ promise /\ ~lateArm)       \* anything but the recorded signature
 Converged == (Quiescent /\ ~lastRunning /\ ticks > 0) => (snap.items = cur /\ [count |-> snap.count, matches |-> snap.matches, pat |-> snap.pat] = FromScratch(cur, pat, pub[cur]))
 RunningFalseMeansCaughtUp == (ui.pc = "idle" /\ ~lastRunning /\ ticks > 0 /\ wk.pc = "idle" /\ ~wake) => snap.pat = pat
 =============================================================================
